@@ -1,2 +1,55 @@
-(* Props/C15.v — property C15 (statements only).  Filled as proofs land. *)
-From PX.Lib Require Import Base.
+(* Props/C15.v — property C15: element/composite validation enforces exactly
+   what the map declares.  Statements only; clauses: Spec/C15_spec.v. *)
+From Coq Require Import String.
+From PX.Lib Require Import Base PyStr.
+From PX.Model Require Import MapLoad MapTree Element.
+From PX.Spec Require Import C15_spec C15_link.
+From PX.Proofs Require Import C15_element.
+
+(* On a well-formed definition the element check never raises, whatever the value. *)
+Theorem C15_total :
+  forall sub c e de pc v fs, wf_def c e de -> exists b evs, elem_is_valid sub c e pc (edata_of v) fs = Ok (b, evs).
+Proof. exact elem_total. Qed.
+Print Assumptions C15_total.
+
+(* Without a control character in the value, the set of codes reported is EXACTLY the set the
+   definition implies (independent clauses: missing when required, present when not used, too
+   short / too long with sign and point not counted, needless trailing blanks, outside inline
+   and external code lists, not of the declared type, not of the qualifier-selected format,
+   not matching the pattern) — for every definition, value, charset setting, exclusion list. *)
+Theorem C15_exact :
+  forall sub c e de pc v fs b evs,
+  wf_def c e de -> formats_datetime fs ->
+  has_control_char (match v with Some x => x | None => [] end) = false ->
+  elem_is_valid sub c e pc (edata_of v) fs = Ok (b, evs) ->
+  forall code, In code (codes_of evs) <-> implies (x_charset c) (icvn_of c) (def_of c e de pc) fs v code = true.
+Proof. exact elem_exact. Qed.
+Print Assumptions C15_exact.
+
+(* Always: every reported code is implied (no spurious error). *)
+Theorem C15_sound :
+  forall sub c e de pc v fs b evs,
+  wf_def c e de -> formats_datetime fs ->
+  elem_is_valid sub c e pc (edata_of v) fs = Ok (b, evs) ->
+  forall code, In code (codes_of evs) -> implies (x_charset c) (icvn_of c) (def_of c e de pc) fs v code = true.
+Proof. exact elem_sound. Qed.
+Print Assumptions C15_sound.
+
+(* With a control character (recorded finding C15-control-char-preempts): exactly the length
+   codes and 6 — the later clauses are not evaluated. *)
+Theorem C15_control_char_preempts :
+  forall sub c e de pc x fs b evs,
+  wf_def c e de -> has_control_char x = true -> C15_spec.usage_is (e_usage e) "N" = false ->
+  elem_is_valid sub c e pc (Some [x]) fs = Ok (b, evs) ->
+  b = false /\ forall code, In code (codes_of evs) <-> implies_with_control_char (def_of c e de pc) x code = true.
+Proof. exact elem_control_char. Qed.
+Print Assumptions C15_control_char_preempts.
+
+(* The boolean result is false exactly when an error was reported. *)
+Theorem C15_bool_iff_error :
+  forall sub c e de pc v fs b evs,
+  wf_def c e de -> formats_datetime fs ->
+  elem_is_valid sub c e pc (edata_of v) fs = Ok (b, evs) ->
+  (b = false <-> codes_of evs <> []).
+Proof. exact elem_bool. Qed.
+Print Assumptions C15_bool_iff_error.
